@@ -948,7 +948,7 @@ class XEval(AutoEvaluator):
         if isinstance(node, ast.IfExp):
             tv = self._ev(node.test)
             c = self.truth(tv)
-            self.tr.tests.append((tv, node.test, tuple(self.path), "ifexp"))
+            self.tr.tests.append((tv, node.test, tuple(self.path), "ifexp", self.tr.seq))
             if c is True:
                 return self._ev(node.body)
             if c is False:
@@ -2182,7 +2182,7 @@ class XEval(AutoEvaluator):
     def _if(self, st):
         tv = self.ev(st.test)
         c = self.truth(tv)
-        self.tr.tests.append((tv, st.test, tuple(self.path), "if"))
+        self.tr.tests.append((tv, st.test, tuple(self.path), "if", self.tr.seq))
         if c is True:
             return self._run_keep(st.body)
         if c is False:
@@ -2310,7 +2310,7 @@ class XEval(AutoEvaluator):
             return self._for(loop)
         self._carried(st.body)
         tv = self.ev(st.test)
-        self.tr.tests.append((tv, st.test, tuple(self.path), "while"))
+        self.tr.tests.append((tv, st.test, tuple(self.path), "while", self.tr.seq))
         name = f"_w{self.loop_depth}"
         self.loopstack.append((name, Unknown("while")))
         try:
@@ -2491,23 +2491,34 @@ class Degrees:
         self.busy = set()
         self.cur = {}
         self.problems = []                 # [(what, value)] inhomogeneous sums met on the way
+        self.at = None                     # evaluation clock (Trace.seq) the question refers to: stores made later do not count; None = at the end
+
+    def asof(self, v, seq):
+        """degree of v as read when the clock stood at `seq` (an array that is re-scaled later still held its earlier content)"""
+        old, self.at = self.at, seq
+        try:
+            return self.of(v)
+        finally:
+            self.at = old
 
     # -- arrays
     def of_array(self, s):
         """degree of what an array holds: its creating value, then every store in order - a store whose value reads the array itself
         (`B[j] = B[j] * m`) is an update of the current content, any other store must agree with it.  None when the array holds
         quantities of different degree (its elements are then resolved index by index)"""
-        if not self.busy and s in self.memo:
-            return self.memo[s]
+        if not self.busy and (s, self.at) in self.memo:
+            return self.memo[(s, self.at)]
         if s in self.busy:
             return self.cur.get(s, ANY)
         self.busy.add(s)
         try:
             init = self.S.tr.inits.get(s)
             d = ANY if init is None else self.of(init)
-            for c in self.S.tr.cells:
+            for c, cx in zip(self.S.tr.cells, self.S.tr.cellx):
                 if c[0] != s or d is None:
                     continue
+                if self.at is not None and cx["seq"] > self.at:
+                    continue            # stored after the moment asked about
                 self.cur[s] = d
                 dv = self.of(c[2])
                 if dv is None:
@@ -2524,7 +2535,7 @@ class Degrees:
             self.busy.discard(s)
             self.cur.pop(s, None)
         if not self.busy:
-            self.memo[s] = d
+            self.memo[(s, self.at)] = d
         return d
 
     def _common(self, ds):
@@ -2569,7 +2580,7 @@ class Degrees:
                 return self._common([self.of(x) for x in v])
             except Inhomogeneous:
                 return None
-        k = (v.n.key(), v.d.key())
+        k = (v.n.key(), v.d.key(), self.at)
         if not self.busy and k in self.memo:
             return self.memo[k]
         try:
@@ -2632,7 +2643,9 @@ class Degrees:
                 r = self.of_array(s)
                 if r is not None:
                     return r
-                for c in reversed(self.S.tr.cells):
+                for c, cx in reversed(list(zip(self.S.tr.cells, self.S.tr.cellx))):
+                    if self.at is not None and cx["seq"] > self.at:
+                        continue
                     if c[0] == s and not is_unknown(c[1]):
                         _, cix = peel(F.fn("idx", F.sym(s), c[1]))
                         if len(cix) == len(ix) and all(same(p, q) for p, q in zip(cix, ix)):
